@@ -62,6 +62,30 @@ CHECKS = {
                         "reference_encodings_with_unknown_length_form": 500}},
         assumptions=["chrono / uuid / big-number layouts are frozen as found on the pinned tree (no external document)"],
     ),
+    "C05": dict(
+        claim="Fault enumeration over hostile inputs: every byte string of length <= 2 for every catalogue type and derived declaration (length <= 3 for the systematic catalogue in the thorough tier), structure-aware tamperings of valid encodings, random bytes with a varint dictionary, and hostile read sequences on the three BinaryInput implementations, each executed under the panic monitor, the allocation monitor (largest single request <= 64 KiB + 256 x len, total <= 256 KiB + 1024 x len), the step monitor (sequence items <= len + 65536, hook) and with crash attribution through breadcrumbs; debug (overflow checks) and release builds; thorough adds AddressSanitizer / MemorySanitizer lanes, a Miri shard and a nesting-depth probe. Held on the executions counted in the evidence, with the known findings listed.",
+        note="Trusted: the counting allocator and the verif-hooks step counter; budgets are constants justified in DESIGN 6.2. Known findings D09 (zero-width elements) and D16 (unbounded recursion depth) are reported, not suppressed silently.",
+        technique="panic / allocation / step monitors + sanitizer lanes over exhaustive short inputs and structure-aware mutation",
+        level="fault_enumeration",
+        quick=NATIVE,
+        thorough=NATIVE + [("rel", 1.0, {"exhaustive3": "1"})],
+        rule="faults = hostile inputs: (a) all byte strings of length 0..2 per type, (b) valid encodings tampered at a field the reference decoder's annotated parse identifies (chunk size, count, length, tag, position byte, version, constructor index, string id), chunk surgery, splices, bit flips, overwrites with varint edge encodings, truncation, (c) random bytes, (d) primitive read sequences with counts {0, 1, remaining, remaining+1, usize::MAX, usize::MAX - pos + k}; every case counts as non-trivial (any outcome other than Ok/Err within budget is a violation); distinct by (type, input)",
+        floors={"any": {"types_with_exhaustive_short_inputs": 1000, "outcome:Err": 100000, "outcome:Ok": 10000, "hostile_op_sequences": 10000}},
+        assumptions=["each non-zero-width element consumes at least one input byte, so len + 65536 sequence items bounds every legitimate decode"],
+    ),
+    "C06": dict(
+        claim="Fault enumeration over framing tamperings: for every tampered or raw input that the real decoder accepts, the strict reference decoder (explicit windows, exactly the leniencies of DESIGN 4.5) must accept it with the same value. Held on the accepted inputs counted per tamper class in the evidence; an input rejected by the library is never an alarm.",
+        note="Trusted: the strict reference decoder and its list of leniencies (DESIGN 4.5); inputs the model cannot judge are counted as model_gap and never as verdicts.",
+        technique="differential acceptance monitor: real Ok(v) implies strict-reference Ok(v) over structure-aware tampering",
+        level="fault_enumeration",
+        quick=NATIVE,
+        thorough=NATIVE,
+        rule="same hostile inputs as C05 (exhaustive <= 2 bytes, annotated-parse tampering, random); a case is non-trivial when the library accepted the input (only those can refute the property); distinct by (type, input); floor: accepted-and-agreed inputs in every tamper class",
+        floors={"any": {"accepted_and_agreed": 1000, "accepted_and_agreed:rewrite_chunk_size": 100, "accepted_and_agreed:rewrite_count": 100,
+                        "accepted_and_agreed:rewrite_length": 100, "accepted_and_agreed:rewrite_tag": 100, "accepted_and_agreed:rewrite_position": 20,
+                        "accepted_and_agreed:rewrite_version": 100, "accepted_and_agreed:rewrite_ctor": 100, "accepted_and_agreed:chunk_surgery": 100,
+                        "accepted_and_agreed:splice": 100, "accepted_and_agreed:bitflip": 100, "accepted_and_agreed:overwrite": 100}},
+    ),
     "C07": dict(
         claim='Held on N observed executions: the consumption monitor drains the context after decoding enc(a)++s and finds exactly s; multi-value streams read back in order.',
         note='Trusted: DeserializationContext::read_u8 as the drain primitive (a public BinaryInput).',
